@@ -174,18 +174,46 @@ func H06_order() {
 	sv.Reach("traced")
 }
 
+// package-level (created by the initialiser): what FrontOnce caches refers to
+// them, so they must outlive the path
+var (
+	tMSB = types.Map(tStr, tBool)
+	tLB  = types.List(tBool)
+	tOB  = ObjT([]string{"flags"}, []*types.Type{tMSB})
+)
+
 // H06_guard: a guarded partial operation never fails.
 func H06_guard() {
 	e := Eng()
-	srcs := []string{"if(isset(m, k), m[k], d)", "isset(m, k) ? m[k] : d", "if(i >= 0 && i < len(xs), xs[i], d)", "if(b != 0, a % b, d)", "!isset(m, k) || m[k] == m[k]"}
+	srcs := []string{"if(isset(m, k), m[k], d)", "isset(m, k) ? m[k] : d", "if(i >= 0 && i < len(xs), xs[i], d)", "if(b != 0, a % b, d)", "!isset(m, k) || m[k] == m[k]",
+		// the guarded operand is a bare element access (no call, no operator)
+		"isset(mb, k) && mb[k]", "!isset(mb, k) || mb[k]", "i >= 0 && i < len(bs) && bs[i]", "!(i >= 0 && i < len(bs)) || bs[i]", "isset(mb, k) && ob.flags[k]"}
 	src := srcs[sv.Choice("prog", len(srcs))]
-	tys := map[string]*types.Type{"m": tMSN, "k": tStr, "d": tNum, "xs": tLN, "i": tNum, "a": tNum, "b": tNum}
-	names := []string{"m", "k", "d", "xs", "i", "a", "b"}
+	tys := map[string]*types.Type{"m": tMSN, "k": tStr, "d": tNum, "xs": tLN, "i": tNum, "a": tNum, "b": tNum, "mb": tMSB, "bs": tLB, "ob": tOB}
+	names := []string{"m", "k", "d", "xs", "i", "a", "b", "mb", "bs", "ob"}
 	expr, _, cls := FrontOnce(e, src, tys, names)
 	sv.Assert("accepted", cls == "ok")
 	NumPool = []float64{1, 2.5}
 	MaxLenQuick = 2
-	vals := map[string]*val.Val{"m": AnyVal(tMSN, "m"), "k": AnyVal(tStr, "k"), "xs": AnyVal(tLN, "xs")}
+	// arbitrary values for the names the program uses, fixed ones for the rest
+	pick := func(name string, t *types.Type, dflt *val.Val) *val.Val {
+		if uses(src, name) {
+			return AnyVal(t, name)
+		}
+		return dflt
+	}
+	vals := map[string]*val.Val{
+		"m": pick("m", tMSN, val.Map(tMSN.Map())), "k": pick("k", tStr, val.Str("k")), "xs": pick("xs", tLN, val.List(tLN.List(), 0)),
+		"bs": pick("bs", tLB, val.List(tLB.List(), 0)),
+	}
+	if uses(src, "mb") || uses(src, "ob") {
+		vals["mb"] = AnyVal(tMSB, "mb")
+	} else {
+		vals["mb"] = val.Map(tMSB.Map())
+	}
+	ob := val.Obj(tOB.Obj()).Obj()
+	ob.V[0] = vals["mb"]
+	vals["ob"] = ob.Vl()
 	NumPool = nil
 	MaxLenQuick = 3
 	vals["d"] = val.Num(sv.Float64("d"))
